@@ -14,13 +14,22 @@
 #include <glm/gtx/mixed_product.hpp>
 #include <cmath>
 using namespace vh;
+// -DC12_ALIGNED (with GLM_FORCE_INTRINSICS, GLM_FORCE_ALIGNED_GENTYPES and an -m<isa> flag): the same program on the aligned
+// qualifiers, i.e. through the intrinsic kernels of glm/simd/geometric.h
+#ifdef C12_ALIGNED
+#include <glm/gtc/type_aligned.hpp>
+// (aligned_lowp may use rsqrt approximations, which C03 bounds; lowp stays packed here)
+static const glm::qualifier QH = glm::aligned_highp, QM = glm::aligned_mediump, QL = glm::lowp;
+#else
+static const glm::qualifier QH = glm::highp, QM = glm::mediump, QL = glm::lowp;
+#endif
 
 static bool g_thorough = false;
 
 template<glm::qualifier Q> struct QN;
-template<> struct QN<glm::highp>   { static const char* s() { return "h"; } };
-template<> struct QN<glm::mediump> { static const char* s() { return "m"; } };
-template<> struct QN<glm::lowp>    { static const char* s() { return "l"; } };
+template<> struct QN<QH>   { static const char* s() { return "h"; } };
+template<> struct QN<QM> { static const char* s() { return "m"; } };
+template<> struct QN<QL>    { static const char* s() { return "l"; } };
 
 #define EV(OP, T, L, Q) Ev(OP).str("t", TI<T>::code()).num("n", L).str("q", QN<Q>::s())
 
@@ -61,7 +70,7 @@ template<class T, glm::qualifier Q> void only2(Case<T> const& cs) {
 template<class T, glm::qualifier Q> void only3(Case<T> const& cs) {
     typedef glm::vec<3, T, Q> V;
     V a = mk<3, T, Q>(cs.a), b = mk<3, T, Q>(cs.b), c = mk<3, T, Q>(cs.c);
-    const bool heavy = g_thorough || Q == glm::highp;      // the costly judgements: every qualifier in the thorough tier only
+    const bool heavy = g_thorough || Q == QH;      // the costly judgements: every qualifier in the thorough tier only
     { V r = glm::cross(a, b); V r2 = glm::cross(b, a); EV("cross", T, 3, Q).arg(a).arg(b).res(r).val("r2", r2).emit(); }
     { T r = glm::mixedProduct(a, b, c); EV("mixedProduct", T, 3, Q).arg(a).arg(b).arg(c).res(r).emit(); }
     if (heavy) { V r = glm::triangleNormal(a, b, c); EV("triangleNormal", T, 3, Q).arg(a).arg(b).arg(c).res(r).emit(); }
@@ -82,7 +91,7 @@ template<class T, glm::qualifier Q> void only3(Case<T> const& cs) {
 // ------------------------------------------------------------------ scalar (genType) overloads
 template<class T> void core_scalar(Case<T> const& cs) {
     T a = cs.a[0], b = cs.b[0], c = cs.c[0], eta = cs.eta;
-    const glm::qualifier Q = glm::highp;
+    const glm::qualifier Q = QH;
     { T r = glm::dot(a, b);       EV("dot", T, 0, Q).arg(a).arg(b).res(r).emit(); }
     { T r = glm::length(a);       EV("length", T, 0, Q).arg(a).res(r).emit(); }
     { T r = glm::distance(a, b);  EV("distance", T, 0, Q).arg(a).arg(b).res(r).emit(); }
@@ -103,10 +112,10 @@ template<int L, class T, glm::qualifier Q> void run_q(Case<T> const& cs) {
 }
 // every case through highp; every 10th (thorough: 5th) also through mediump and through lowp; L = 1 also through the scalar overloads
 template<int L, class T> void run_case(Case<T> const& cs, uint64_t idx) {
-    run_q<L, T, glm::highp>(cs);
+    run_q<L, T, QH>(cs);
     const uint64_t per = g_thorough ? 5 : 10;
-    if (idx % per == 1) run_q<L, T, glm::mediump>(cs);
-    if (idx % per == 3) run_q<L, T, glm::lowp>(cs);
+    if (idx % per == 1) run_q<L, T, QM>(cs);
+    if (idx % per == 3) run_q<L, T, QL>(cs);
     if constexpr (L == 1) core_scalar<T>(cs);
 }
 
@@ -250,7 +259,7 @@ template<int L, class T> void gen_all(Rng& rng) {
         }
         // random directions normalised by GLM itself (inputs of the angle functions) with a random eta
         for (int it = 0; it < N; ++it) {
-            auto rv = [&](T* d) { glm::vec<L, T, glm::highp> v; bool nz = false; for (int k = 0; k < L; ++k) { long long m = (long long)(rng.below(2001)) - 1000; v[k] = T(m); nz = nz || m != 0; }
+            auto rv = [&](T* d) { glm::vec<L, T, QH> v; bool nz = false; for (int k = 0; k < L; ++k) { long long m = (long long)(rng.below(2001)) - 1000; v[k] = T(m); nz = nz || m != 0; }
                                   if (!nz) v[0] = T(1); v = glm::normalize(v); for (int k = 0; k < 4; ++k) d[k] = k < L ? v[k] : T(0); };
             rv(cs.a); rv(cs.b); rv(cs.c);
             cs.eta = dy<T>(1 + (long long)rng.below(1024), -8); cs.depth = unsigned(1 + rng.below(4));
